@@ -75,6 +75,10 @@ enum Op {
     Push(u8),
     Report,
     Yield,
+    /// the thread drops its `Event` instance for this event (its pusher, if any, lives on); later
+    /// observations of this thread on that event are skipped. What was observed through the
+    /// dropped instance still counts: at once for pull events, at its pusher's next push otherwise.
+    DropEvent(u16),
 }
 
 #[derive(Debug, Clone, Serialize, Deserialize)]
@@ -160,6 +164,7 @@ fn op_strategy() -> impl Strategy<Value = Op> {
         9 => (0u8..2).prop_map(Op::Push),
         1 => Just(Op::Report),
         1 => Just(Op::Yield),
+        1 => any::<u16>().prop_map(Op::DropEvent),
     ]
 }
 
@@ -455,6 +460,8 @@ struct Facts {
     batch0: bool,
     extreme: bool,
     unpushed_at_exit: bool,
+    event_dropped_mid_life: bool,
+    event_dropped_with_unpushed_data: bool,
     worker_reports: usize,
 }
 
@@ -483,12 +490,16 @@ fn simulate(case: &Case) -> Sim {
         let mut since_push: Vec<BTreeSet<usize>> = vec![BTreeSet::new(); ne];
         let mut per_phase: Vec<Vec<Agg>> = Vec::with_capacity(np);
         let mut own = Vec::new();
+        let mut dropped = vec![false; ne];
         for p in 0..np {
             if p >= sp && p <= ep {
                 for op in &th.ops[p] {
                     match op {
                         Op::Obs { ev, mag, how, reps } => {
                             let Some(a) = case.action(t, *ev, mag, how, *reps) else { continue };
+                            if dropped[a.ev] {
+                                continue;
+                            }
                             let total = a.batch.map_or(1, |n| n as u64) * u64::from(a.reps);
                             if a.batch == Some(0) {
                                 facts.batch0 = true;
@@ -536,6 +547,16 @@ fn simulate(case: &Case) -> Sim {
                             facts.worker_reports += 1;
                         }
                         Op::Yield => {}
+                        Op::DropEvent(ev) => {
+                            let e = pick_index(*ev, ne);
+                            if th.modes[e] != 3 && !dropped[e] {
+                                dropped[e] = true;
+                                facts.event_dropped_mid_life = true;
+                                if th.modes[e] != 0 && published[e] != local[e] {
+                                    facts.event_dropped_with_unpushed_data = true;
+                                }
+                            }
+                        }
                     }
                 }
             }
@@ -703,9 +724,11 @@ fn worker(case: &Case, rt: &Runtime, t: usize) -> WorkerOut {
                     match op {
                         Op::Obs { ev, mag, how, reps } => {
                             let Some(a) = case.action(t, *ev, mag, how, *reps) else { continue };
-                            match events[a.ev].as_ref().expect("registered") {
-                                Ev::Pull(e) => exec(e, &a),
-                                Ev::Push(e) => exec(e, &a),
+                            match events[a.ev].as_ref() {
+                                Some(Ev::Pull(e)) => exec(e, &a),
+                                Some(Ev::Push(e)) => exec(e, &a),
+                                // dropped by an earlier `DropEvent`
+                                None => {}
                             }
                         }
                         Op::Push(k) => pushers[usize::from(*k % 2)].push(),
@@ -714,6 +737,10 @@ fn worker(case: &Case, rt: &Runtime, t: usize) -> WorkerOut {
                             Err(m) => out.panics.push(format!("Report::collect on a worker: {m}")),
                         },
                         Op::Yield => thread::yield_now(),
+                        Op::DropEvent(ev) => {
+                            let e = pick_index(*ev, events.len());
+                            drop(events[e].take());
+                        }
                     }
                 }
             });
@@ -1032,6 +1059,8 @@ fn judge(case: &Case, ctx: &mut Judged) -> Verdict {
         (f.batch0, "batch(0)"),
         (f.extreme, "extreme-magnitude"),
         (f.unpushed_at_exit, "unpushed-data-at-exit"),
+        (f.event_dropped_mid_life, "event-instance-dropped-mid-life"),
+        (f.event_dropped_with_unpushed_data, "push-event-dropped-with-unpushed-data"),
         (f.worker_reports > 0, "worker-report"),
         (case.phases.iter().any(|p| p.reports > 0), "coordinator-concurrent-report"),
         (case.timed.iter().any(|t| *t), "timed-event"),
